@@ -22,6 +22,7 @@ import (
 type hOpts struct {
 	Spec       world.Spec
 	MaxDev     int
+	RedisFaults bool    // additionally enumerate faults of single Redis commands (Redis-backed worlds)
 	Faults     bool     // enumerate store/idp/jwks faults (before, after, crash) as deviations
 	FaultModes []string // default before, after, crash
 	Pairs      bool     // two faults inside one check (costs 2)
@@ -59,11 +60,14 @@ type hObs struct {
 	Calls     []world.EnvCall
 	PreGhost  *world.GhostSession // copy of ghost[SID] before the check
 	PreHad    bool
+	PreBorn   time.Time // when the presented session's entry came into being (zero: unknown)
 	TokenReqs []*world.TokenReq // token requests made during this check
 	AuthzLoc  string            // Location if the answer redirects to the authorization endpoint
 	NewCode   *world.Code
 	Now       time.Time
 	PreDump   string
+	RedisCmds   []string
+	RedisFailed bool
 	Drift     string // store content changed behind the store interface (first observation in this history)
 	PrePresented, PreIssued int
 	IssuedBefore map[string]bool
@@ -190,6 +194,7 @@ func (o hOpts) model(monitors ...hMonitor) seqx.Model {
 				if g := w.Store.Ghost[sid]; g != nil {
 					o.PreGhost = copyGhost(g)
 					o.PreHad = true
+					o.PreBorn = w.Store.Born[sid]
 				}
 			}
 			if h.Presented == nil {
@@ -217,6 +222,11 @@ func (o hOpts) model(monitors ...hMonitor) seqx.Model {
 			if res.Crashed {
 				w.CrashRestart()
 			}
+			if w.Env.RedisFailed {
+				w.ResyncGhost()
+			}
+			o.RedisCmds = append([]string(nil), w.Env.RedisCmds...)
+			o.RedisFailed = w.Env.RedisFailed
 			w.CheckDrift("after the check")
 			o.Drift = w.Drift
 			h.Last = res
@@ -383,6 +393,7 @@ func (o hOpts) model(monitors ...hMonitor) seqx.Model {
 			d := fresh().(*hSys)
 			apply(d, e, hist, false)
 			calls := append([]world.EnvCall(nil), d.W.Env.Calls...)
+			nRedis := len(d.W.Env.RedisCmds)
 			d.Close()
 			idpCalled := false
 			for _, c := range calls {
@@ -402,6 +413,17 @@ func (o hOpts) model(monitors ...hMonitor) seqx.Model {
 						a := a
 						ee := e
 						ee.Plan = &world.Plan{Answer: &a}
+						ee.Dev = 1
+						out = append(out, ee)
+					}
+				}
+			}
+			if o.Faults && o.RedisFaults && h.Dev < o.MaxDev {
+				// Redis-backed worlds: every single command of the check fails before / after the server executed it
+				for k := 0; k < nRedis; k++ {
+					for _, m := range []string{"before", "after"} {
+						ee := e
+						ee.Plan = &world.Plan{RedisFaults: map[int]string{k: m}}
 						ee.Dev = 1
 						out = append(out, ee)
 					}
@@ -454,7 +476,7 @@ func (o hOpts) model(monitors ...hMonitor) seqx.Model {
 		for sid := range w.Store.Ghost {
 			sids = append(sids, sid)
 		}
-		sort.Strings(sids)
+		w.SortByIssue(sids)
 		for _, sid := range sids {
 			g := w.Store.Ghost[sid]
 			if g.Tokens != nil {
